@@ -1,0 +1,222 @@
+//go:build verif
+// +build verif
+
+package main
+
+import (
+	"encoding/hex"
+	"encoding/json"
+	"io/ioutil"
+	"log"
+	"net"
+	"sync"
+	"sync/atomic"
+	"time"
+
+	"github.com/EdgeCast/vflow/ipfix"
+	netflow9 "github.com/EdgeCast/vflow/netflow/v9"
+)
+
+// pipeline driver: feeds the supplied datagrams to the REAL worker functions through the REAL
+// package-level channels and buffer pools, emulating only the body of the receive loop of run()
+// (pool Get, copy, count, enqueue), and returns what the workers enqueue for the producer together
+// with the counters.  The outgoing queue is drained only after all datagrams were processed
+// ("delayed consumer"), so that a message that aliases a recycled buffer is visibly overwritten.
+
+type verifPipelineCase struct {
+	Proto   string     `json:"proto"`
+	Workers int        `json:"workers"`
+	UDPSize int        `json:"udpsize"`
+	Pre     [][]string `json:"pre"`    // [addr hex, payload hex] decoded directly into the cache first
+	Dgrams  [][]string `json:"dgrams"` // [addr hex, payload hex]
+	Filter  []uint32   `json:"filter"`
+	Mirror  bool       `json:"mirror"`
+	// enterprise elements to install into ipfix.InfoModel first: [enterprise no, element id, FieldType]
+	ExtElements [][3]uint32 `json:"ext_elements"`
+}
+
+type verifPipelineResult struct {
+	Published []string `json:"published"` // hex of every payload handed to the message queue, in queue order
+	UDPCount  uint64   `json:"udp_count"`
+	Decoded   uint64   `json:"decoded_count"`
+	Mirrored  int      `json:"mirrored"`
+	Error     string   `json:"error,omitempty"`
+}
+
+func init() { verifCommands["pipeline"] = verifPipeline }
+
+func verifAddr(h string) *net.UDPAddr {
+	b, _ := hex.DecodeString(h)
+	ip := make(net.IP, len(b))
+	copy(ip, b)
+	return &net.UDPAddr{IP: ip, Port: 4739}
+}
+
+func verifPipeline(raw []byte) interface{} {
+	var wrap struct {
+		verifPipelineCase
+	}
+	if err := json.Unmarshal(raw, &wrap); err != nil {
+		return verifPipelineResult{Error: err.Error()}
+	}
+	c := wrap.verifPipelineCase
+	if c.Workers < 1 {
+		c.Workers = 1
+	}
+	if c.UDPSize < 1 {
+		c.UDPSize = 1500
+	}
+	for _, e := range c.ExtElements {
+		ipfix.InfoModel[ipfix.ElementKey{EnterpriseNo: e[0], ElementID: uint16(e[1])}] =
+			ipfix.InfoElementEntry{FieldID: uint16(e[1]), Name: "ext", Type: ipfix.FieldType(e[2])}
+	}
+	opts = NewOptions()
+	opts.IPFIXUDPSize, opts.NetflowV9UDPSize, opts.NetflowV5UDPSize, opts.SFlowUDPSize = c.UDPSize, c.UDPSize, c.UDPSize, c.UDPSize
+	opts.SFlowTypeFilter = c.Filter
+	logger = log.New(ioutil.Discard, "", 0)
+	opts.Logger = logger
+
+	var (
+		wg       sync.WaitGroup
+		quits    []chan struct{}
+		enqueue  func(addr *net.UDPAddr, p []byte)
+		mq       chan []byte
+		udpLen   func() int
+		counters func() (uint64, uint64)
+		mirrored func() int
+	)
+	mirrored = func() int { return 0 }
+	start := func(worker func(chan struct{})) {
+		for n := 0; n < c.Workers; n++ {
+			q := make(chan struct{})
+			quits = append(quits, q)
+			wg.Add(1)
+			go func() { defer wg.Done(); worker(q) }()
+		}
+	}
+	switch c.Proto {
+	case "ipfix":
+		mCache = ipfix.GetCache("")
+		for _, d := range c.Pre {
+			b, _ := hex.DecodeString(d[1])
+			ipfix.NewDecoder(verifAddr(d[0]).IP, b).Decode(mCache)
+		}
+		ipfixBuffer = &sync.Pool{New: func() interface{} { return make([]byte, opts.IPFIXUDPSize) }}
+		ipfixMirrorEnabled = c.Mirror
+		i := &IPFIX{}
+		start(i.ipfixWorker)
+		enqueue = func(addr *net.UDPAddr, p []byte) {
+			b := ipfixBuffer.Get().([]byte)
+			n := copy(b, p)
+			atomic.AddUint64(&i.stats.UDPCount, 1)
+			ipfixUDPCh <- IPFIXUDPMsg{addr, b[:n]}
+		}
+		mq, udpLen = ipfixMQCh, func() int { return len(ipfixUDPCh) }
+		counters = func() (uint64, uint64) {
+			return atomic.LoadUint64(&i.stats.UDPCount), atomic.LoadUint64(&i.stats.DecodedCount)
+		}
+		mirrored = func() int {
+			n := 0
+			for len(ipfixMCh) > 0 {
+				<-ipfixMCh
+				n++
+			}
+			return n
+		}
+	case "nf9":
+		mCacheNF9 = netflow9.GetCache("")
+		for _, d := range c.Pre {
+			b, _ := hex.DecodeString(d[1])
+			netflow9.NewDecoder(verifAddr(d[0]).IP, b).Decode(mCacheNF9)
+		}
+		netflowV9Buffer = &sync.Pool{New: func() interface{} { return make([]byte, opts.NetflowV9UDPSize) }}
+		i := &NetflowV9{}
+		start(i.netflowV9Worker)
+		enqueue = func(addr *net.UDPAddr, p []byte) {
+			b := netflowV9Buffer.Get().([]byte)
+			n := copy(b, p)
+			atomic.AddUint64(&i.stats.UDPCount, 1)
+			netflowV9UDPCh <- NetflowV9UDPMsg{addr, b[:n]}
+		}
+		mq, udpLen = netflowV9MQCh, func() int { return len(netflowV9UDPCh) }
+		counters = func() (uint64, uint64) {
+			return atomic.LoadUint64(&i.stats.UDPCount), atomic.LoadUint64(&i.stats.DecodedCount)
+		}
+	case "nf5":
+		netflowV5Buffer = &sync.Pool{New: func() interface{} { return make([]byte, opts.NetflowV5UDPSize) }}
+		i := &NetflowV5{}
+		start(i.netflowV5Worker)
+		enqueue = func(addr *net.UDPAddr, p []byte) {
+			b := netflowV5Buffer.Get().([]byte)
+			n := copy(b, p)
+			atomic.AddUint64(&i.stats.UDPCount, 1)
+			netflowV5UDPCh <- NetflowV5UDPMsg{addr, b[:n]}
+		}
+		mq, udpLen = netflowV5MQCh, func() int { return len(netflowV5UDPCh) }
+		counters = func() (uint64, uint64) {
+			return atomic.LoadUint64(&i.stats.UDPCount), atomic.LoadUint64(&i.stats.DecodedCount)
+		}
+	case "sflow":
+		sFlowBuffer = &sync.Pool{New: func() interface{} { return make([]byte, opts.SFlowUDPSize) }}
+		sFlowMirrorEnabled = c.Mirror
+		s := &SFlow{}
+		start(s.sFlowWorker)
+		enqueue = func(addr *net.UDPAddr, p []byte) {
+			b := sFlowBuffer.Get().([]byte)
+			n := copy(b, p)
+			atomic.AddUint64(&s.stats.UDPCount, 1)
+			sFlowUDPCh <- SFUDPMsg{addr, b[:n]}
+		}
+		mq, udpLen = sFlowMQCh, func() int { return len(sFlowUDPCh) }
+		counters = func() (uint64, uint64) {
+			return atomic.LoadUint64(&s.stats.UDPCount), atomic.LoadUint64(&s.stats.DecodedCount)
+		}
+		mirrored = func() int {
+			n := 0
+			for len(sFlowMCh) > 0 {
+				<-sFlowMCh
+				n++
+			}
+			return n
+		}
+	default:
+		return verifPipelineResult{Error: "unknown proto " + c.Proto}
+	}
+	// leftovers of an earlier case
+	for len(mq) > 0 {
+		<-mq
+	}
+	for _, d := range c.Dgrams {
+		b, _ := hex.DecodeString(d[1])
+		enqueue(verifAddr(d[0]), b)
+	}
+	// quiescence: the receive queue is empty and the queue to the producer has stopped growing
+	deadline := time.Now().Add(20 * time.Second)
+	stable, last := 0, -1
+	for time.Now().Before(deadline) && stable < 5 {
+		time.Sleep(4 * time.Millisecond)
+		_, dc := counters()
+		cur := len(mq)*1000003 + int(dc)
+		if udpLen() == 0 && cur == last {
+			stable++
+		} else {
+			stable = 0
+		}
+		last = cur
+	}
+	var res verifPipelineResult
+	if udpLen() != 0 {
+		res.Error = "workers did not drain the receive queue within 20 s"
+	}
+	for _, q := range quits {
+		close(q)
+	}
+	wg.Wait()
+	// the delayed consumer: only now is the outgoing queue read
+	for len(mq) > 0 {
+		res.Published = append(res.Published, hex.EncodeToString(<-mq))
+	}
+	res.UDPCount, res.Decoded = counters()
+	res.Mirrored = mirrored()
+	return res
+}
